@@ -1003,6 +1003,15 @@ class Explorer:
             # inside an inlined generic helper instantiated at a primitive type: `T::default()` is `u16::default()`
             info = dict(info)
             info["targs"] = [fr.tsub.get(t_, t_) for t_ in info["targs"]]
+        if info is not None and info.get("trait") and not info.get("res") and info.get("targs") and info["path"].startswith("mqtt::"):
+            # a call to a method of an in-crate trait that the generic body could not resolve (`self.part()` inside a provided
+            # method): with `Self` bound by the inlined call it is the impl's method, or the trait's provided one
+            selfty = info["targs"][0]
+            tgt = self.resolve_trait_method(info["trait"], info.get("name"), selfty)
+            if tgt is not None:
+                info = dict(info)
+                info["res"] = {"path": tgt}
+                path = tgt
         if info is None:
             # call through a function pointer: when the pointer's value is known on this path (a reified fn item or a
             # non-capturing closure coerced to `fn(..)`, passed down by an inlined caller), the call goes to that body
@@ -1120,6 +1129,28 @@ class Explorer:
         fr.bb = target
         return "ok"
 
+    def resolve_trait_method(self, trait, name, selfty):
+        key = (trait, name, selfty)
+        c = self._trait_res.get(key) if hasattr(self, "_trait_res") else None
+        if not hasattr(self, "_trait_res"):
+            self._trait_res = {}
+        if key in self._trait_res:
+            return self._trait_res[key]
+        out = None
+        if selfty and selfty not in ("Self",) and not re.match(r"^[A-Z]\w*$", selfty):
+            for im in self.F.impls_of(trait):
+                if im.get("self") == selfty:
+                    for m in im.get("methods", []):
+                        if m.get("name") == name and m.get("path") in self.F.fns:
+                            out = m["path"]
+                    if out is None:
+                        dp = "%s::%s" % (trait, name)
+                        if dp in self.F.fns:
+                            out = dp          # provided method of the trait
+                    break
+        self._trait_res[key] = out
+        return out
+
     def std_fn_item_values(self, st, stack, finfo, argvals, site):
         """Value(s) of std_fn(argvals) according to the call models: [(state, stack, value)], or None when no model applies.
         The model writes into a scratch local of the current frame; forks are carried through."""
@@ -1186,8 +1217,8 @@ class Explorer:
                     continue
                 if fr is not None and fr.tsub and ta in fr.tsub:
                     ta = fr.tsub[ta]
-                if re.match(r"^(u8|u16|u32|u64|u128|usize|i8|i16|i32|i64|i128|isize|bool)$", ta):
-                    tm[gname] = ta          # (only primitive instantiations are needed: they select std models)
+                if ta != gname and not ta.startswith("'"):
+                    tm[gname] = ta          # `T` = u16 selects the std models; `Self` = a packet type selects the trait impl
             nf.tsub = tm or None
         elif closure and fr is not None:
             nf.consts = fr.consts
@@ -2848,8 +2879,8 @@ def small_private_helper(callee, props_ok=False):
     """A small private function of the packet layer (a predicate / cursor step / length formula factored out of
     build(), parse() or a serialiser).  Functions that take a property list (validators and their helpers: they iterate)
     are followed only on request (props_ok) - the rules that evaluate validators do so on concrete lists."""
-    return callee.get("kind") in ("Fn", "AssocFn") and not callee.get("pub") and callee["path"].startswith("mqtt::packet::") \
-        and len(callee["blocks"]) <= 120 and not callee.get("impl_trait") and "Builder" not in callee.get("impl_self", "") \
+    return callee.get("kind") in ("Fn", "AssocFn") and not callee.get("pub") and callee["path"].lstrip("<").startswith("mqtt::packet::") \
+        and len(callee["blocks"]) <= 120 and "Builder" not in (callee.get("impl_self") or "") \
         and (props_ok or not (callee.get("prop_validator") or (takes_property_list(callee) and has_back_edge(callee))))
 
 
